@@ -17,7 +17,7 @@ cleanup() {
 }
 trap cleanup EXIT
 git -C "$base-repo" apply "$patch" || { echo "patch does not apply"; exit 2; }
-rsync -a --exclude .git --exclude replays --exclude '.work/*.log' /verif/ "$base-verif/"
+rsync -a --exclude .git --exclude replays --exclude '.work/*.log' --exclude .work/reg --exclude .work/m5 "${VERIF_SRC:-/verif}/" "$base-verif/"
 mkdir -p "$base-verif/replays"
 cd "$base-verif"
 for p in "$@"; do
